@@ -48,6 +48,7 @@ type idp struct {
 	family int
 	tokN   int
 	nCodes int
+	onDiscovery func() // run once, inside the next discovery request
 	mintFor string // provider id (path prefix) the answer being minted belongs to
 	answers int // token-endpoint answers sent (every other one declares a charset)
 
@@ -128,7 +129,12 @@ func (p *idp) serve(w http.ResponseWriter, r *http.Request) {
 			p.discoveryOutage--
 		}
 		p.discoveryHits++
+		hook := p.onDiscovery
+		p.onDiscovery = nil
 		p.mu.Unlock()
+		if hook != nil {
+			hook() // something happens in the world while the service waits for the discovery document (a Secret is rotated, ...)
+		}
 		if fail {
 			http.Error(w, "discovery unavailable", http.StatusServiceUnavailable)
 			return
